@@ -82,3 +82,56 @@ CONTRACTS = [split]
 # `a == b` compares (the text of b must stay the same).
 from contracts.c06 import mk_retarget      # noqa: E402
 CONTRACTS.append(mk_retarget("C07"))
+
+
+# --- strops.join: the inverse of split --------------------------------------------------------------------------------------------------------------
+# For ANY ragged text (n >= 1 rows, rows may be empty): the result is row 0, sep, row 1, sep, ...; row i starts at C(i) + i (C = prefix sums of the row
+# lengths); with keep_last the text ends with a separator, without it the final separator is dropped.  The operand is not modified.
+from pyvc.pybuiltins import SRaggedObj      # noqa: E402
+
+
+def _join():
+    from bionumpy.io import strops
+    return strops.join
+
+
+def _mk_join(keep_last):
+    def setup(ctx):
+        st = St()
+        st.n = z3.Int("n_rows")
+        st.L = z3.Function("row_length", z3.IntSort(), z3.IntSort())
+        st.ch = z3.Function("char", z3.IntSort(), z3.IntSort(), z3.IntSort())
+        st.fl = lambda i: st.L(I(i))
+        st.C = M.exclusive_prefix(st.fl, st.n)
+        st.seqs = SRaggedObj(None, st.n, lambda i: st.C(I(i)), st.fl, "BaseEncoding", st.C(st.n), contiguous=True, C=st.C)
+        st.seqs.at = lambda i, k: st.ch(I(i), I(k))
+        st.args = [st.seqs]
+        st.kwargs = {"sep": "\t", "keep_last": keep_last}
+        return st
+
+    def req(ctx, st):
+        ctx.assume(st.n >= 1, Forall(lambda i: Implies(in_range(i, st.n), st.L(i) >= 0), triggers=[st.L], name="row lengths >= 0"))
+        M.prefix_monotone(st.C, st.fl, st.n)
+        return []
+
+    def ens(ctx, st, ret):
+        start = lambda i: st.C(i) + I(i)
+        st.ret = ret
+        goals = [("length", I(ret.length) == st.C(st.n) + st.n - (0 if keep_last else 1)),
+                 ("row.i.follows.at.C(i)+i", Forall(lambda i, k: Implies(And(in_range(i, st.n), in_range(k, st.L(i))), I(ret.at(start(i) + k)) == st.ch(i, k)), nvars=2)),
+                 ("separator.after.every.row" + ("" if keep_last else ".but.the.last"),
+                  Forall(lambda i: Implies(And(in_range(i, st.n), True if keep_last else i + 1 < st.n), I(ret.at(start(i) + st.L(i))) == 9)))]
+        return goals
+
+    def hints(ctx, st, ks):
+        out = []
+        for k in ks[:1]:
+            out += [st.C(k), st.C(k + 1)]
+        return out
+    return Contract("C07.strops.join[keep_last=%s]" % keep_last, target=_join, setup=setup, requires=req, ensures=ens, hints=hints, timeout_ms=60000,
+                    canaries=[("separator written over the last character", 'new_array[:, -1] = sep', 'new_array[:, -2] = sep'),
+                              ("rows shifted by one", "new_array[:, :-1] = sequences", "new_array[:, 1:] = sequences")] if keep_last else
+                             [("final separator kept", "return new_array.ravel()[:-1]", "return new_array.ravel()")])
+
+
+CONTRACTS += [_mk_join(True), _mk_join(False)]
